@@ -4,10 +4,12 @@ import (
 	"context"
 	"fmt"
 	"io"
+	"net"
 	"os"
 	"path/filepath"
 	"sync"
 	"sync/atomic"
+	"syscall"
 	"time"
 
 	"github.com/superfly/litefs"
@@ -213,10 +215,10 @@ func (l *SimLease) Close() error {
 type FaultClient struct {
 	// LoseReleaseAnswer: DELETE /halt is executed by the primary, the caller is told it timed out
 	LoseReleaseAnswer atomic.Bool
-	Inner   *lhttp.Client
-	mu      sync.Mutex
-	blocked bool
-	streams []*faultStream
+	Inner             *lhttp.Client
+	mu                sync.Mutex
+	blocked           bool
+	streams           []*faultStream
 	// hooks (optional)
 	OnCommit  func(name string, lockID int64) error // return error to drop the request before it is sent
 	AfterHalt func(name string, lockID int64, hl *litefs.HaltLock, err error) (*litefs.HaltLock, error)
@@ -224,7 +226,12 @@ type FaultClient struct {
 	held      atomic.Bool
 	holdAfter atomic.Int64 // Hold once this many stream bytes have been delivered (0 = off)
 	delivered atomic.Int64 // stream bytes delivered to the node so far
+	cutAfter  atomic.Int64 // break the stream (connection reset) once this many stream bytes have been delivered (0 = off)
 }
+
+// CutAfter breaks the node's stream with a connection error as soon as n stream bytes (counted from the node's
+// start) have been delivered - once; the node reconnects on its own.
+func (c *FaultClient) CutAfter(n int64) { c.cutAfter.Store(n) }
 
 // HoldAfter puts the client on hold as soon as n stream bytes (counted from the node's start) have been
 // delivered: the node has then received exactly the beginning of what the primary sent.
@@ -330,6 +337,19 @@ func (s *faultStream) Read(p []byte) (int, error) {
 		if t := s.c.holdAfter.Load(); t > 0 {
 			if room := t - s.c.delivered.Load(); room > 0 && int64(len(p)) > room {
 				p = p[:room] // stop exactly at the threshold
+			}
+		}
+	}
+	if s.c != nil {
+		if t := s.c.cutAfter.Load(); t > 0 {
+			room := t - s.c.delivered.Load()
+			if room <= 0 {
+				s.c.cutAfter.Store(0)
+				_ = s.Close()
+				return 0, &net.OpError{Op: "read", Net: "tcp", Err: syscall.ECONNRESET}
+			}
+			if int64(len(p)) > room {
+				p = p[:room]
 			}
 		}
 	}
